@@ -63,7 +63,13 @@ def float_text(rng):
     return ip + frac + exp
 
 
+# values that *look like* escape sequences: a decoder working in several passes re-reads them
+ESCAPE_LOOKALIKES = ["\\u0041", "\\n", "\\\\", "a\\tb", "\\\"", "\\u00e9x", "\\\\u0041", "\\u005Cn", "x\\", "\\/"]
+
+
 def string_value(rng, maxlen=8, hostile=True):
+    if hostile and rng.random() < 0.12:
+        return rng.choice(ESCAPE_LOOKALIKES)
     n = rng.choice([0, 0, 1, 1, 2, 3, maxlen])
     chars = []
     for _ in range(rng.randint(0, n) if n else 0):
@@ -83,7 +89,7 @@ def quoted_string_text(rng, value):
     for ch in value:
         o = ord(ch)
         must_escape = ch in '"\\\n\r' or (o < 0x20 and ch != "\t")
-        if ch in _ESC and (must_escape or rng.random() < 0.5):
+        if ch in _ESC and (must_escape or rng.random() < 0.5) and rng.random() < 0.8:
             out.append(_ESC[ch])
         elif ch == "/" and rng.random() < 0.5:
             out.append("\\/")
